@@ -434,7 +434,11 @@ def _col_rows_case(draw):
     key2 = draw(st.one_of(st.lists(st.integers(-k, k - 1), min_size=0, max_size=4).map(lambda l: ['ilist', l]) if k else st.just(['ilist', []]),
                           st.tuples(v, v).map(lambda t: ['slice', [t[0], t[1], None]]),
                           st.lists(st.booleans(), min_size=k, max_size=k).map(lambda l: ['bmask', l])))
-    return dict(arm='col_rows', N=N, D=D, c=c, by_name=draw(st.booleans()), rk1=rk1, key2=key2)
+    if draw(st.booleans()) and k:
+        key2 = ['int', draw(st.integers(-k, k - 1))]            # one event of the column, also counted from the end
+    # the event key may come with an Ellipsis in front of or behind it (plain indexing treats it as "the rest")
+    return dict(arm='col_rows', N=N, D=D, c=c, by_name=draw(st.booleans()), rk1=rk1, key2=key2,
+                wrap=draw(st.sampled_from([None, None, 'ell_first', 'ell_last'])))
 
 
 def strategy(tier):
@@ -452,6 +456,11 @@ def _check_col_rows(case, obs):
     if not obs.claim('values+meta', not raised(col) and np.array_equal(np.asarray(col), ref), lambda: 'column selection: %r' % (col,)):
         return
     k2 = realise(tuple(case['key2']))
+    if case.get('wrap') == 'ell_first':
+        k2 = (Ellipsis, k2)
+    elif case.get('wrap') == 'ell_last':
+        k2 = (k2, Ellipsis)
+    obs.label('wrap:%s' % case.get('wrap'))
     got = call(col.__getitem__, k2)
     try:
         exp = ref[k2]
@@ -459,12 +468,19 @@ def _check_col_rows(case, obs):
         obs.claim('raise', raised(got), lambda: 'plain indexing refuses %r on %d values but the sample returned %r' % (case['key2'], len(ref), got))
         return
     obs.nontrivial = len(ref) <= 1 or (case['key2'][0] == 'ilist' and len(set(case['key2'][1])) < len(case['key2'][1]))
+    # (event key, Ellipsis) on a column is the listed form "events + all channels".  (Ellipsis, key) on a
+    # one-dimensional column is read by the sample as (all events, channel key): outside the listed grammar, so a
+    # refusal is allowed and an answer must be the plain-indexing values carrying no other channel's record
+    wrapped = case.get('wrap') == 'ell_first'
+    if wrapped and raised(got):
+        obs.claims['raise'] += 1
+        return
     if not obs.claim('values', not raised(got) and np.shape(got) == np.shape(exp) and np.array_equal(np.asarray(got), exp),
                      lambda: 'events %r of a column of %d: %r, plain indexing gives %r' % (case['key2'], len(ref), got, exp.tolist())):
         return
     if hasattr(got, 'channels') and np.ndim(got) >= 1:
         gm = call(meta_of, got)
-        obs.claim('meta', not raised(gm) and gm == [meta[c]],
+        obs.claim('meta', not raised(gm) and (gm == [meta[c]] or (wrapped and all(m_ == meta[c] for m_ in gm))),
                   lambda: 'events %r of a one-channel column of %d event(s): channel records %r, expected the record of %r only' % (
                       case['key2'], len(ref), [m_.get('name') for m_ in gm] if not raised(gm) else gm, names[c]))
 
